@@ -103,7 +103,8 @@ CHECKS = {
             "systematic schedule exploration (controlled scheduler) of the real code", "DESIGN.md §3 C13"),
     "C14": ("exploration",
             "Counting sources measure pulled-vs-yielded at every yield for shuffle_buffer/round_robin(+async)/LazyPool; "
-            "shard opens observed by audit hook / FIFO-gate ready sets for the dataset-level paths incl. Rust; measured "
+            "shard reads observed by wrappers, FIFO-gate ready sets (Rust) and kernel open events (inotify; also sees "
+            "TensorFlow's native TFRecord readers) for the dataset-level paths; measured "
             "at stream lengths N, 10N, infinite: read-ahead must be length-independent and below 4(b+T)+16.",
             "Only the affine bound and length-independence decide (retuning a prefetch constant is not an alarm).",
             "runtime monitor: read-ahead counters on instrumented sources and observed shard opens", "DESIGN.md §3 C14"),
